@@ -2,6 +2,7 @@ import Cose.Go.ByteStr
 import Cose.Driver.MsgOps
 import Cose.Msg.Kdf
 import Cose.Cwt.Claims
+import Cose.Key.KeySet
 /-! Line-protocol ops for KDF contexts, claims, key sets, recipients, ByteStr codecs (C04, C07, C09). -/
 namespace Cose.Driver.DecOps
 open Cose.Driver Cose.Driver.KeyOps Cose.Driver.MsgOps Cose.Go Cose.Msg Cose.Cbor Cose.Cwt
@@ -47,24 +48,19 @@ def opClaimsDec (a : List String) : String :=
     | none => "bad-op")
   | _ => "bad-op"
 
-/-- `[]Key`: an array of key maps, each through `CoseMap.UnmarshalCBOR` -/
+/-- `[]Key`: an array of key maps, each through `CoseMap.UnmarshalCBOR` (`Key/KeySet.lean`, the model
+    `keyset_roundtrip` is stated over) -/
 def opKeyset (a : List String) : String :=
   match a with
   | [h] => (match unhex h with
     | some b =>
-      (match (decodeAll b).map untag with
-       | none => "err"
-       | some (.simple 22) => "ok " ++ hex (encode Cbor.null)
-       | some (.simple 23) => "ok " ++ hex (encode Cbor.null)
-       | some (.arr items) =>
-         (match decSeq (fun c => match hdrField c with
-              | .ok (some m) => Dec.ok m | .ok none => Dec.ok [] | .err => Dec.err | .unmodelled => Dec.unmodelled) items with
-          | .ok ms => (match ms.mapM CMap.toCbor with
-              | some cs => "ok " ++ hex (encode (.arr cs))
-              | none => "unmodelled")
-          | .err => "err"
-          | .unmodelled => "unmodelled")
-       | some _ => "err")
+      (match Cose.Key.keysetDecode b with
+       | .ok none => "ok " ++ hex (encode Cbor.null)
+       | .ok (some ms) => (match ms.mapM CMap.toCbor with
+           | some cs => "ok " ++ hex (encode (.arr cs))
+           | none => "unmodelled")
+       | .err => "err"
+       | .unmodelled => "unmodelled")
     | none => "bad-op")
   | _ => "bad-op"
 
